@@ -88,6 +88,7 @@ func buildC14(kinds []string) *c14Shared {
 		switch k {
 		case "retry":
 			sh.pols = append(sh.pols, retrypolicy.Builder[int]().WithMaxRetries(2).
+				HandleErrors(errE1, errE2).HandleErrorTypes(valErr{}, &ptrErr{}).AbortOnErrorTypes(isE1{}).
 				WithDelayFunc(func(e failsafe.ExecutionAttempt[int]) time.Duration {
 					touchAttempt(e)
 					return time.Duration(e.Attempts()%3) * 20 * time.Microsecond
@@ -113,6 +114,7 @@ func buildC14(kinds []string) *c14Shared {
 				_ = e.Context().Err()
 			}
 			cb := circuitbreaker.Builder[int]().WithFailureThresholdRatio(5, 10).WithDelay(time.Millisecond).
+				HandleErrors(errE1).HandleErrorTypes(valErr{}).
 				WithDelayFunc(func(e failsafe.ExecutionAttempt[int]) time.Duration { touchAttempt(e); return 500 * time.Microsecond }).
 				OnStateChanged(func(e circuitbreaker.StateChangedEvent) { sc(e); scGeneric(e) }).
 				OnOpen(func(e circuitbreaker.StateChangedEvent) { sc(e); sh.specific.Add(1) }).
@@ -260,6 +262,9 @@ func c14Round(rep *vk.Report, prop string, idx int, kinds []string, salt int) {
 					}
 					switch beh {
 					case 0:
+						if val%3 == 0 {
+							return 0, valErr{val}
+						}
 						return 0, errE1
 					case 1:
 						time.Sleep(dur)
